@@ -328,6 +328,19 @@ fn check_predicate(
     }
 }
 
+// Verification hook: counts the iterations of the three loops of the checker (the work loop of
+// check_type, the loop of get_next_check and the loop of unwind) on the current thread.
+#[cfg(feature = "verif")]
+thread_local! {
+    static VERIF_STEPS: std::cell::Cell<u64> = std::cell::Cell::new(0);
+}
+#[cfg(feature = "verif")]
+pub fn verif_steps_reset() { VERIF_STEPS.with(|c| c.set(0)) }
+#[cfg(feature = "verif")]
+pub fn verif_steps() -> u64 { VERIF_STEPS.with(|c| c.get()) }
+#[cfg(feature = "verif")]
+fn verif_step() { VERIF_STEPS.with(|c| c.set(c.get() + 1)) }
+
 /* The type check does a depth-first check, maintaining a state
  * represented by a stack of sets of pending checks.  Each set of
  * checks on the stack contains an index into the first element of the
@@ -401,6 +414,8 @@ impl State {
     fn get_next_check(&mut self, check_error: &Option<LocatedVal<TypeCheckError>>) -> GetResult {
         //let mut cnt = -1;
         loop {
+            #[cfg(feature = "verif")]
+            verif_step();
             if let Some((pending, next_idx)) = self.todo.get_mut(0) {
                 if let Some((obj, tc)) = pending.pop_front() {
                     //println!(" get_next_check({}): todo[0] tc={:?}", cnt, tc);
@@ -518,6 +533,8 @@ impl State {
      * whether it was successful. */
     fn unwind(&mut self) -> bool {
         loop {
+            #[cfg(feature = "verif")]
+            verif_step();
             if let Some((pending, next_idx)) = self.todo.get_mut(0) {
                 if let Some((_, tc)) = pending.front() {
                     match tc.as_ref() {
@@ -667,6 +684,8 @@ pub fn check_type(
 
     /* work loop */
     loop {
+        #[cfg(feature = "verif")]
+        verif_step();
         let next: GetResult = state.get_next_check(&result);
         if next.is_err() {
             // there can only be an error in getting the next check if
